@@ -90,6 +90,9 @@ type c17Script struct {
 	Cuts        []int `json:"cuts"`
 	DoneContent bool  `json:"done_content,omitempty"`
 	Fail        bool  `json:"fail,omitempty"`
+	// NoDone (with Fail): Completion returns nil instead of an error, still without a Done callback - what
+	// llm's Completion does when the runner's stream ends without a final event or the token-repeat limit aborts it
+	NoDone bool `json:"no_done,omitempty"`
 }
 
 type c17Case struct {
@@ -150,9 +153,10 @@ func c17Callbacks(o c17Output, s c17Script) ([]llm.CompletionResponse, error) {
 const c17RunnerError = "c17: runner failed"
 
 type c17Runner struct {
-	cbs   []llm.CompletionResponse
-	fail  bool
-	calls int
+	cbs    []llm.CompletionResponse
+	fail   bool
+	nodone bool
+	calls  int
 	// what the runner was asked (for the distinct-request statistics only)
 	lastPrompt string
 	lastFormat string
@@ -173,6 +177,9 @@ func (m *c17Runner) Completion(ctx context.Context, req llm.CompletionRequest, f
 		fn(cb)
 	}
 	if m.fail {
+		if m.nodone {
+			return nil
+		}
 		return errors.New(c17RunnerError)
 	}
 	return nil
